@@ -1,4 +1,5 @@
 CONSTANT Inputs <- FileInputs
 INIT Init
 NEXT Next
-INVARIANTS TypeOK InvPlacement InvSandbox InvLimits InvIngress InvEgress InvPositive InvComplete
+INVARIANTS TypeOK InvPlacement InvSandbox InvLimits InvIngress InvEgress InvIngressOther InvEgressOther InvPositive InvComplete InvTornDown
+PROPERTIES Isolation
